@@ -3,13 +3,13 @@
 # Applies a seeded change in a scratch worktree of /repo (never in /repo itself: other checks may be
 # running against it), runs the property's check against that worktree, removes the worktree.
 set -u
-PID=$1; DIR=$2; shift 2
+PID=$1; DIR=$(cd "$2" && pwd); shift 2
 export GOFLAGS=-mod=mod GOPROXY=off GOSUMDB=off GOTOOLCHAIN=local
 WT=$(mktemp -d /tmp/seed-$PID-XXXX); rmdir $WT
 git -C /repo worktree add --detach $WT HEAD >/dev/null 2>&1 || { echo "worktree failed"; exit 2; }
 if ! git -C $WT apply $DIR/patch.diff; then echo "PATCH DOES NOT APPLY"; git -C /repo worktree remove --force $WT; exit 2; fi
 BD=$(mktemp -d /tmp/seedbuild-$PID-XXXX)
-( cd /verif && VERIF_REPO=$WT VERIF_BUILD=$BD ./check $PID "$@" 2>&1 | tail -8 )
+( cd /verif && VERIF_REPO=$WT VERIF_BUILD=$BD VERIF_EVID=$BD/evidence ./check $PID "$@" 2>&1 | tail -8 )
 rc=${PIPESTATUS[0]}
 mkdir -p $DIR/replay; cp $BD/replay/$PID-*.case $DIR/replay/ 2>/dev/null
 git -C /repo worktree remove --force $WT; rm -rf $BD
